@@ -8,7 +8,8 @@ export CGO_ENABLED=0
 # the checks allocate fast on 16 threads (every explored transaction builds fresh caches): without a soft limit the collector
 # lets the heap run far ahead of the live data (an out-of-memory kill would take the evidence with it)
 export GOMEMLIMIT=${GOMEMLIMIT:-12GiB}
-BIN=/verif/.bin
+BIN=${VERIF_BIN:-/verif/.bin}   # a long run started next to other work gets its own binaries (workers re-execute the binary by path)
+OVL=${VERIF_OVL:-/verif/.ovl}
 mkdir -p "$BIN" /verif/evidence /verif/replays
 
 build() { # rebuilds from /repo's current working tree (go build recompiles edited sources)
@@ -16,8 +17,8 @@ build() { # rebuilds from /repo's current working tree (go build recompiles edit
 }
 
 build_sched() { # second binary: sync in cache/server/inmemory replaced by the scheduler shim (go build -overlay)
-  python3 /verif/tools/mkoverlay.py /verif/.ovl >/dev/null || { echo "OVERLAY GENERATION FAILED"; exit 2; }
-  (cd /verif/mc && go build -tags "verif vsched" -overlay /verif/.ovl/overlay.json -o "$BIN/vsched" ./cmd/vcheck) || { echo "BUILD FAILED (vsched with overlay)"; exit 2; }
+  python3 /verif/tools/mkoverlay.py "$OVL" >/dev/null || { echo "OVERLAY GENERATION FAILED"; exit 2; }
+  (cd /verif/mc && go build -tags "verif vsched" -overlay "$OVL/overlay.json" -o "$BIN/vsched" ./cmd/vcheck) || { echo "BUILD FAILED (vsched with overlay)"; exit 2; }
 }
 
 build_race() { # third binary, for C18's auxiliary pass: the same program built with the race detector (needs cgo)
